@@ -2,8 +2,68 @@
 TRANSPARENT_COLOR, the half-block code points, the default / invisible cell, and the shape of
 `impl TextPane for Buffer :: get_char` (number of return / continue sites, the flattened source text of
 get_char / merge / make_solid_color) so that a change of the skeleton shows up as a changed generated file."""
-import re, json
-from extract import src, HEADER, ExtractError
+import re, json, os
+from extract import src, HEADER, ExtractError, lean_list, REPO
+
+# the ANSI font slots the C13 harness installs in its test buffers (harness/src/c13.rs `build`):
+# buffer slot 0 = from_ansi_font_page(0), slot 1 = from_ansi_font_page(32), slot 3 = from_ansi_font_page(42)
+HARNESS_ANSI_SLOTS = [0, 32, 42]
+
+
+def _fonts_mod():
+    """reuse `parse_font` (mirror of BitFont::from_bytes) of tools/gens/fonts.py"""
+    import importlib.util
+    here = os.path.dirname(os.path.abspath(__file__))
+    spec = importlib.util.spec_from_file_location('gens_fonts_for_comp', os.path.join(here, 'fonts.py'))
+    m = importlib.util.module_from_spec(spec)
+    spec.loader.exec_module(m)
+    return m
+
+
+def gen_comp_fonts():
+    """Gen/CompFonts.lean: the glyph bitmaps (`Glyph::data`, one byte per row) of the built-in fonts in
+    HARNESS_ANSI_SLOTS, read from data/fonts exactly as `BitFont::from_bytes` reads them, and the shape of
+    `HalfBlock::from` (the two `count_ones` loops and the `> width * height / 4` threshold)."""
+    fm = _fonts_mod()
+    s = src('src/fonts.rs')
+    m = re.search(r'\nfonts!\[(.*?)\n\];', s, re.S)
+    if not m:
+        raise ExtractError('fonts![] table not found')
+    by_slot = {}
+    for e in re.finditer(r'\(\s*([A-Z0-9_]+),\s*"([^"]+)",\s*(?:DEFAULT_FONT_NAME|"[^"]*"),\s*(\d+),\s*(\d+)\s*,\s*(\d+)\s*\)', m.group(1)):
+        by_slot[int(e.group(5))] = (e.group(1), e.group(2))
+    hbk = src('src/paint/half_block.rs')
+    m = re.search(r'pub fn from\(buf: &Buffer, block: AttributedChar, pos: Position\) -> Self \{(.*?)\n    \}\n', hbk, re.S)
+    if not m:
+        raise ExtractError('HalfBlock::from not found')
+    body = re.sub(r'\s+', ' ', m.group(1)).strip()
+    thr = re.findall(r'if (upper|lower) > font\.size\.width \* font\.size\.height / (\d+) \{ block\.attribute\.get_foreground\(\) \} else \{ block\.attribute\.get_background\(\) \}', body)
+    loops = re.search(r'for i in 0\.\.\(glyph\.data\.len\(\) / 2\) \{ upper \+= glyph\.data\[i\]\.count_ones\(\) as i32; '
+                      r'lower \+= glyph\.data\[glyph\.data\.len\(\) / 2 \+ i\]\.count_ones\(\) as i32; \}', body)
+    nofont = len(re.findall(r'upper_block_color: block\.attribute\.get_background\(\), lower_block_color: block\.attribute\.get_background\(\)', body))
+    if [t[0] for t in thr] != ['upper', 'lower'] or len({t[1] for t in thr}) != 1 or not loops or nofont != 2:
+        raise ExtractError('HalfBlock::from: source shape changed')
+    out = [HEADER, 'namespace IcyVerif.Gen.CompFonts\n']
+    out.append(f'/-- `upper > width * height / N`: the N of HalfBlock::from -/\ndef halfThresholdDiv : Nat := {int(thr[0][1])}\n')
+    out.append(f'def src_half_block_from : String := {json.dumps(body)}\n')
+    names = []
+    for slot in HARNESS_ANSI_SLOTS:
+        if slot not in by_slot:
+            raise ExtractError(f'fonts![]: no font with ANSI slot {slot}')
+        ident, file = by_slot[slot]
+        with open(os.path.join(REPO, 'data/fonts', file), 'rb') as f:
+            w, h, gl = fm.parse_font(f.read())
+        nm = 'g_' + ident.lower()
+        flat = [b for rows in gl for b in rows]
+        out.append(f'/-- {file}: {len(gl)} glyphs of {h} rows, glyph i = rows [i*{h}, (i+1)*{h}) -/\n')
+        out.append(lean_list(nm + '_rows', flat))
+        names.append((slot, nm, w, h, len(gl)))
+    out.append('/-- (ANSI font slot, width, height, number of glyphs, all glyph rows concatenated) -/\n')
+    out.append('def fonts : List (Nat × Nat × Nat × Nat × List Nat) := [' +
+               ', '.join(f'({sl}, {w}, {h}, {n}, {nm}_rows)' for sl, nm, w, h, n in names) + ']\n')
+    out.append('end IcyVerif.Gen.CompFonts\n')
+    return 'CompFonts.lean', ''.join(out)
+
 
 
 def _int(t):
@@ -111,7 +171,7 @@ def gen_comp():
     out.append(f'def src_merge : String := {json.dumps(fn_body(buf, "merge", ""))}\n')
     out.append(f'def src_make_solid_color : String := {json.dumps(fn_body(buf, "make_solid_color", "    "))}\n')
     out.append('end IcyVerif.Gen.Comp\n')
-    return 'Comp.lean', ''.join(out)
+    return [('Comp.lean', ''.join(out)), gen_comp_fonts()]
 
 
 GENERATORS = {'comp': gen_comp}
